@@ -275,6 +275,35 @@ func runC10(c *core.Ctx) {
 		c.Sample(map[string]any{"part": "l3-long-lines", "sizes": sizes, "kinds": kinds, "positions": "first,middle,last"})
 	})
 
+	c.RunPart("l3-large", 20*time.Minute, func(c *core.Ctx) {
+		// inputs larger than any plausible internal cap: success requires EOF and every record
+		rec := "2021/01/24:\n  a/b: 1\n  zz: 2.5\n\n"
+		for _, mib := range []int{5, 17, 33} {
+			n := mib << 20 / len(rec)
+			data := []byte(strings.Repeat(rec, n))
+			rd := &countingReader{data: data, limit: -1}
+			count := 0
+			var ret error
+			pnc := safely(func() {
+				ret = parser.ParseStreamCallback(rd, parser.NewDefaultConfig(), func(nd *shared.ParserNode, err error) (bool, error) {
+					if err == nil && nd != nil && len(nd.Elements) == 2 {
+						count++
+					}
+					return false, nil
+				})
+			})
+			c.Eval(1)
+			c.Count("large_input_cases", 1)
+			c.Nontrivial("large", fmt.Sprint(mib))
+			rep := map[string]any{"input_bytes": len(data), "records": n, "records_seen": count, "delivered": rd.delivered, "eof_delivered": rd.eof, "returned": fmt.Sprint(ret)}
+			if pnc != "" {
+				c.Violation("ParseStreamCallback|panic", clip(pnc, 300), rep)
+			} else if ret == nil && (!rd.eof || count != n) {
+				c.Violation("ParseStreamCallback|success-without-eof", fmt.Sprintf("input of %d MiB: returned nil after %d of %d records, %d of %d bytes read, EOF delivered: %v", mib, count, n, rd.delivered, len(data), rd.eof), rep)
+			}
+		}
+	})
+
 	if c.InChild() {
 		return
 	}
@@ -482,6 +511,59 @@ func c10L1(c *core.Ctx) {
 				c.Violation(sig+"|crash-on-unreadable-input", v.what+": "+clip(res.Serr, 300), doc)
 			} else if res.Exit == 0 {
 				c.Violation(sig+"|unreadable-input-accepted", fmt.Sprintf("%s: %s exits 0 with %d bytes of report", v.what, joinArgs(cmd.args), len(res.Out)), doc)
+			}
+		}
+	}
+	// the same unreadable files when the program finds them by default name, HR_* variable or
+	// configuration file instead of -d/-l
+	for _, route := range []string{"default", "env", "config"} {
+		for _, v := range []struct{ what, file, target string }{
+			{"directory as book", "adir", "book"}, {"directory as log", "adir", "log"},
+			{"70 KiB comment line in book", "longbook.yaml", "book"}, {"70 KiB note line in log", "longlog.yaml", "log"},
+		} {
+			rdir := filepath.Join(c.Work, "l1-"+route+"-"+v.target+"-"+v.file)
+			goodBook, goodLog := files["food.yaml"], files["log.yaml"]
+			rfiles := map[string]string{"food.yaml": goodBook, "log.yaml": goodLog, "longbook.yaml": files["longbook.yaml"], "longlog.yaml": files["longlog.yaml"]}
+			run.WriteFiles(rdir, rfiles)
+			os.MkdirAll(filepath.Join(rdir, "adir"), 0o755)
+			var args []string
+			env := map[string]string{}
+			switch route {
+			case "default":
+				// the damaged file takes the default name in the working directory
+				name := map[string]string{"book": "food.yaml", "log": "log.yaml"}[v.target]
+				os.RemoveAll(filepath.Join(rdir, name))
+				if v.file == "adir" {
+					os.MkdirAll(filepath.Join(rdir, name), 0o755)
+				} else {
+					os.WriteFile(filepath.Join(rdir, name), []byte(rfiles[v.file]), 0o644)
+				}
+			case "env":
+				env[map[string]string{"book": "HR_DATABASE", "log": "HR_LOGFILE"}[v.target]] = v.file
+			case "config":
+				key := map[string]string{"book": "DbFileName", "log": "LogFileName"}[v.target]
+				os.WriteFile(filepath.Join(rdir, "hr.conf"), []byte("[Global]\n"+key+"="+filepath.Join(rdir, v.file)+"\n"), 0o644)
+				args = append(args, "--config", "hr.conf")
+			}
+			for _, cmd := range cmds {
+				if cmd.lintFile != "" || (v.target == "book" && cmd.book < 0) || (v.target == "log" && cmd.log < 0) {
+					continue
+				}
+				full := append(append([]string{"--no-color", "--today", "2021/02/01"}, args...), cmd.args...)
+				res := run.Exec(c.HR, full, run.ExecOpts{Dir: rdir, Env: env})
+				c.Eval(1)
+				c.Count("l1_unreadable_input_by_"+route, 1)
+				c.Nontrivial("l1route", route, v.what, joinArgs(cmd.args))
+				sig := strings.Join(cmd.args[:min(2, len(cmd.args))], " ")
+				if cmd.args[0] == "summary" {
+					sig = "summary"
+				}
+				doc := caseDoc{Args: full, Env: env, Note: v.what + ", file found through " + route, Observed: resDoc(res)}
+				if res.Crashed() {
+					c.Violation(sig+"|crash-on-unreadable-input", v.what+": "+clip(res.Serr, 300), doc)
+				} else if res.Exit == 0 {
+					c.Violation(sig+"|unreadable-input-accepted", fmt.Sprintf("%s (found through %s): %s exits 0 with %d bytes of report", v.what, route, joinArgs(cmd.args), len(res.Out)), doc)
+				}
 			}
 		}
 	}
